@@ -41,6 +41,35 @@ def builtin_cases(rng, n):
     return cases
 
 
+def deep_cases(rng):
+    """Many operands pending at once: a right-nested sum of depth 70-100, a function used as an operand of its own
+    return expression recursing 70-90 deep, a long left-nested chain (few pending operands) as control."""
+    cases = []
+    for _ in range(2):
+        depth = rng.randint(70, 100)
+        txt, coq = '1', '(ELit (LInt 1))'
+        for k in range(depth):
+            v = rng.randint(1, 9)
+            txt = '%d + (%s)' % (v, txt)
+            coq = '(EBin BAdd (ELit (LInt %d)) (EParen %s))' % (v, coq)
+        items = [('assign deep {%s}' % txt, '(SAssign "deep" (RExpr %s))' % coq), ('print deep', '(SPrint (Some (RVar "deep")))'),
+                 ('hue {deep * 2}', '(SReg R_HUE (RExpr (EBin BMul (EVar "deep") (ELit (LInt 2)))))'), ('print hue', '(SPrint (Some (RReg R_HUE)))')]
+        cases.append(langcheck.Case(items, lang.SMALL_WORLD, 'deep-nesting-%d' % depth))
+    n = rng.randint(70, 90)
+    sum_to = ('define sum_to with n begin\nif {n <= 1} begin\nreturn 1\nend\nreturn {n + [sum_to {n - 1}]}\nend',
+              '(SDefineRoutine "sum_to" ["n"] (SBlock [(SIf (RExpr (EBin BLe (EVar "n") (ELit (LInt 1)))) (SBlock [SReturn (Some (RLit (LInt 1)))]) None); '
+              '(SReturn (Some (RExpr (EBin BAdd (EVar "n") (ECall "sum_to" [RExpr (EBin BSub (EVar "n") (ELit (LInt 1)))])))))]))')
+    items = [sum_to, ('print [sum_to %d]' % n, '(SPrint (Some (RCall "sum_to" [RLit (LInt %d)])))' % n),
+             ('print {1000 + [sum_to %d] * 2}' % n, '(SPrint (Some (RExpr (EBin BAdd (ELit (LInt 1000)) (EBin BMul (ECall "sum_to" [RLit (LInt %d)]) (ELit (LInt 2)))))))' % n)]
+    cases.append(langcheck.Case(items, lang.SMALL_WORLD, 'deep-recursion-%d' % n))
+    txt, coq = '1', '(ELit (LInt 1))'
+    for k in range(120):
+        txt = '%s + %d' % (txt, k % 7)
+        coq = '(EBin BAdd %s (ELit (LInt %d)))' % (coq, k % 7)
+    cases.append(langcheck.Case([('print {%s}' % txt, '(SPrint (Some (RExpr %s)))' % coq)], lang.SMALL_WORLD, 'long-chain'))
+    return cases
+
+
 def random_bounds(ctx, n):
     """[random a b] with the library's choice forced to its extremes."""
     from bardolph.runtime import bardolph_math
@@ -107,6 +136,7 @@ def run(ctx):
     corpus = langcheck.load_corpus('C02')
     cases, stats = langcheck.generate_cases(ctx.rng, n, OPTS, size=(3, 9), tag='c02')
     cases += builtin_cases(ctx.rng, 200 if ctx.thorough() else 25)
+    cases += deep_cases(ctx.rng)
     summary = langcheck.compare_all(ctx, 'C02', corpus + cases)
     ctx.extra['summary'] = summary
     ctx.extra['generator_distribution'] = stats
